@@ -513,10 +513,41 @@ func c10Scripts(thorough bool) []c10Script {
 	return out
 }
 
+// c10CodeSweep: every final status code the back-end can end a call with, on every shape and
+// front, with and without a reply before it. The relayed status does not depend on the
+// schedule, so these scenarios are explored to preemption bound 1 only.
+func c10CodeSweep() []c10Script {
+	var out []c10Script
+	for _, front := range []string{"grpc", "http"} {
+		for code := codes.Code(1); code <= 17; code++ {
+			msg := fmt.Sprintf("ends with %d", uint32(code))
+			out = append(out,
+				c10Script{Shape: "unary", Front: front, N: 1, HalfClose: true, K: 1, Code: code, Msg: msg, MD: "none"},
+				c10Script{Shape: "ss", Front: front, N: 1, HalfClose: true, R: 1, K: 1, Code: code, Msg: msg, Details: code%2 == 1, MD: "none"},
+				c10Script{Shape: "ss", Front: front, N: 1, HalfClose: true, R: 1, K: 0, Code: code, Msg: msg, MD: "none"},
+				c10Script{Shape: "cs", Front: front, N: 2, HalfClose: true, ReadAll: true, K: 0, Code: code, Msg: msg, MD: "none"},
+				c10Script{Shape: "bidi", Front: front, N: 1, HalfClose: true, ReadAll: true, K: 1, Code: code, Msg: msg, Details: code%2 == 0, MD: "none"},
+				c10Script{Shape: "bidi", Front: front, N: 2, HalfClose: true, R: 1, K: 0, Code: code, Msg: msg, MD: "none"})
+		}
+	}
+	return out
+}
+
 func c10Scenarios(thorough bool) []*e3Scenario {
 	var scs []*e3Scenario
+	seen := map[string]bool{}
 	for _, s := range c10Scripts(thorough) {
+		seen[s.name()] = true
 		scs = append(scs, c10Scenario(s))
+	}
+	for _, s := range c10CodeSweep() {
+		if seen[s.name()] {
+			continue
+		}
+		seen[s.name()] = true
+		sc := c10Scenario(s)
+		sc.BoundCap = 1
+		scs = append(scs, sc)
 	}
 	return scs
 }
@@ -527,7 +558,7 @@ func runC10(c *Ctx) {
 	if c.Thorough() {
 		bound, per = 4, 10*time.Minute
 	}
-	r.Rule(fmt.Sprintf("call scripts on the four shapes of a service discovered by reflection from a scripted back-end: front {gRPC, HTTP/JSON} × client {n messages, half-closes or waits for the final status} × back-end {reads r messages or until EOF, sends k replies (batch or ping-pong), finishes with OK / NotFound / Internal+details / PermissionDenied before the first read} × request metadata {none, one value, two values, -bin}; threads: front server (ServeHTTP), client, back-end script, larking's pump goroutine; every interleaving with at most %d preemptions (bounds iterated from 0); oracle per schedule: the back-end received exactly what it would receive directly (messages, EOF, metadata), the client received exactly the back-end's replies and final status, no panic, no deadlock (a hang is a deadlock of the controlled threads); distinct = (script, outcome)", bound))
+	r.Rule(fmt.Sprintf("call scripts on the four shapes of a service discovered by reflection from a scripted back-end: front {gRPC, HTTP/JSON} × client {n messages, half-closes or waits for the final status} × back-end {reads r messages or until EOF, sends k replies (batch or ping-pong), finishes with OK / NotFound / Internal+details / PermissionDenied before the first read; plus a sweep of every final status code 1..17 on every shape, with and without a reply before it (preemption bound 1)} × request metadata {none, one value, two values, -bin}; threads: front server (ServeHTTP), client, back-end script, larking's pump goroutine; every interleaving with at most %d preemptions (bounds iterated from 0); oracle per schedule: the back-end received exactly what it would receive directly (messages, EOF, metadata), the client received exactly the back-end's replies and final status, no panic, no deadlock (a hang is a deadlock of the controlled threads); distinct = (script, outcome)", bound))
 	r.Assume("the back-end stream follows grpc-go's documented ClientStream contract (SendMsg -> io.EOF once done, RecvMsg -> message / io.EOF / status error); validated against real grpc-go on both sides by the conformance pass", "response header/trailer metadata is not part of the property")
 	runScenarios(c, c10Scenarios(c.Thorough()), bound, per, 0)
 	if c.Shards == 0 {
